@@ -5,7 +5,7 @@
     pivoting rule); [mx n n M] = the n x n MathComp matrix of the entries of M; [\det] = MathComp's
     determinant (Leibniz formula). *)
 From mathcomp Require Import all_ssreflect all_fingroup all_algebra.
-From LP Require Import Num C04_Model C05_Model C04_Proofs_Struct C04_Proofs_Laws C05_Proofs C05_Proofs_Complete C05_Proofs_Seq C05_Proofs_Seq2 C05_Proofs_Orth C05_Proofs_Round C05_Proofs_Pivot C05_Proofs_Round2 C05_Proofs_SwapHist.
+From LP Require Import Num C04_Model C05_Model C05_Model2 C05_Proofs_Lbl C04_Proofs_Struct C04_Proofs_Laws C05_Proofs C05_Proofs_Complete C05_Proofs_Seq C05_Proofs_Seq2 C05_Proofs_Orth C05_Proofs_Round C05_Proofs_Pivot C05_Proofs_Round2 C05_Proofs_SwapHist.
 Import Order.TTheory GRing.Theory Num.Theory.
 Local Open Scope ring_scope.
 
@@ -431,3 +431,45 @@ Theorem C05_transpose_premise_example : let M := mk_mat 3 3 (fun i j => if (i ==
   exists Mt, transpose Ops M = Ok Mt.
 Proof. exact (@transpose_premise_example R Ops). Qed.
 End RoundedArithmetic.
+
+Section InPlace.
+(** Matrix::Inverse() statement by statement (coq/C05_Model2.v, the term whose result is compared with the library for every
+    request 'inverse'): the work array  Matrix A(N, 2.0 * N, 0.0)  is CHANGED IN PLACE, one assignment A[i][j] = ... after the other in
+    the order of the loops; the row exchange is std::swap(A[i], A[i_pivot]); the first N columns are removed by N calls of
+    Delete_Column(0).  The theorems above are about [inverse] (every loop nest described by the table it leaves).  Here: the two are
+    the same function - in EVERY arithmetic (no law of + - * / is used; IEEE doubles with NaN / inf included), every size, by induction
+    over every loop (loop invariants: which entries have been written so far, and that an assignment reads only entries that still have
+    their old value - the pivot row and the divisor A[i][i] are never written by the loop that reads them, ratio is formed before row j
+    is written).  So "Inverse returns X ...", "a singular ... matrix terminates with a diagnostic" hold for the in-place code as written. *)
+Context {T : Type} (AOps : NumOps T).
+Theorem C05_inverse_inplace_is_model (M : mat T) : inverse_lbl AOps M = inverse AOps M.
+Proof. exact (@inverse_lblE T AOps M). Qed.
+Print Assumptions C05_inverse_inplace_is_model.
+(** the parts: the loop nest that fills (M | 1) ... *)
+Theorem C05_inplace_augment (M : mat T) : augment_lbl AOps M = augment AOps M.
+Proof. exact (@augment_lblE T AOps M). Qed.
+Print Assumptions C05_inplace_augment.
+(** ... std::swap of two rows of an N x 2N array ... *)
+Theorem C05_inplace_row_exchange N (A : seq (seq T)) i p : shp N (2 * N)%N A -> (i < N)%N -> (p < N)%N ->
+  swap_lbl A i p = swap_rows AOps N A i p.
+Proof. exact (@swap_lblE T AOps N A i p). Qed.
+Print Assumptions C05_inplace_row_exchange.
+(** ... the elimination loop nest for pivot i (for j: if(i != j) { ratio = A[j][i] / A[i][i]; for k: A[j][k] = A[j][k] - ratio * A[i][k]; }) ... *)
+Theorem C05_inplace_eliminate N (A : seq (seq T)) i : shp N (2 * N)%N A -> (i < N)%N ->
+  eliminate_lbl AOps N A i = eliminate AOps N A i.
+Proof. exact (@eliminate_lblE T AOps N A i). Qed.
+Print Assumptions C05_inplace_eliminate.
+(** ... the scaling loop nest A[i][j] = A[i][j] / A[i][i] (j = N .. 2N-1) followed by N calls of Delete_Column(0) *)
+Theorem C05_inplace_finish N (A : seq (seq T)) : shp N (2 * N)%N A ->
+  strip_lbl N (mkMat N (2 * N)%N (scale_lbl AOps N A)) = Ok (finish AOps N A).
+Proof. exact (@finish_lblE T AOps N A). Qed.
+Print Assumptions C05_inplace_finish.
+(** "whatever the position of its zero or small entries": in every arithmetic (a comparison with NaN is just false) the pivot search
+    returns a row inside the array, so std::swap(A[i], A[i_pivot]) never touches memory outside it *)
+Theorem C05_pivot_row_in_range N (A : seq (seq T)) i : (i < N)%N -> (pivot_row AOps N A i < N)%N.
+Proof. exact (@pivot_lt T AOps N A i). Qed.
+Print Assumptions C05_pivot_row_in_range.
+(** non-vacuity of the shape premise: the work array (M | 1) of a 2 x 2 matrix is a 2 x 4 array *)
+Theorem C05_inplace_premises_example : shp 2 (2 * 2)%N (augment AOps (mk_mat 2 2 (fun _ _ => n1 AOps))).
+Proof. exact (@shp_example T AOps). Qed.
+End InPlace.
